@@ -334,7 +334,9 @@ class Sequence:
             # compute prediction and jacobian
             pred, jac = self.jacobian(variables, **values)
             # check dimensions
-            if obs.shape != pred.shape:
+            try:
+                np.broadcast_shapes(obs.shape, pred.shape)
+            except ValueError:
                 raise ValueError(f"Mismatch between observation and prediction shapes")
             # compute confidence intervals
             cints, cband = stats.confint(obs, pred, jac, conflevel=conflevel)
